@@ -209,7 +209,7 @@ def run(ck):
         for tty in (False, True):
             # NO_COLOR: unset, "1", and set to the empty string / to "0" (set is set: the variable's value plays no part)
             for nocolor in (False, True, "", "0"):
-                for guard in ((0, 1, 2, 3) if nocolor in (False, True) else (0,)):
+                for guard in ((0, 1, 2, 3, 4, 5, 6, 7) if nocolor in (False, True) else (0,)):
                     r = req.replace(" 1 %s 2 " % hexs(src), " %d %s 2 " % (guard, hexs(src)), 1)
                     env = {} if nocolor is False else {"NO_COLOR": "1" if nocolor is True else nocolor}
                     envp = {k: v for k, v in ENV.items() if k != "NO_COLOR"}
@@ -218,14 +218,16 @@ def run(ck):
                     f = dict(x.split("=", 1) for x in o.split(" ")[1:]) if " " in o else {}
                     text = unhexs(f.get("out", "-")) if f.get("out") else ""
                     styled = "\x1b[" in text
-                    guard_alive = guard in (1, 2)
+                    guard_alive = guard in (1, 2, 4, 6, 7)   # = 0 < liveGuards of the scenario's history of creations and drops (C17_guard)
                     want = tty and nocolor is False and not guard_alive
                     cdist["tty=%d NO_COLOR=%s guard=%d styled=%d" % (tty, {False: "unset", True: "1"}.get(nocolor, repr(nocolor)), guard, styled)] = 1
                     if styled != want:
                         key = "colour:nested-guard" if guard == 2 else "colour:tty=%d:nocolor=%s:guard=%d" % (tty, nocolor, guard)
                         ck.report(key, "colour escapes %s although stderr %s a terminal, NO_COLOR is %s and %s" % (
                             "appear" if styled else "are missing", "is" if tty else "is not", "unset" if nocolor is False else "set (to %r)" % ("1" if nocolor is True else nocolor),
-                            {0: "no guard exists", 1: "a plain-output guard is alive", 2: "an outer plain-output guard is alive (an inner one was dropped)", 3: "a guard was created and dropped before"}[guard]),
+                            {0: "no guard exists", 1: "a plain-output guard is alive", 2: "an outer plain-output guard is alive (an inner one was dropped)", 3: "a guard was created and dropped before",
+                             4: "of two overlapping guards the first was dropped (not in LIFO order) and the second is alive", 5: "two overlapping guards were dropped, the first one first",
+                             6: "of three guards the middle one was dropped, two are alive", 7: "of two guards the first was dropped, a third was created and dropped, the second is alive"}[guard]),
                                   dict(tty=tty, NO_COLOR=nocolor, guard_scenario=guard, styled=styled, expected_styled=want, output=text[:300],
                                        note=None if styled else "the statement only forbids colour where it must not appear; missing colour breaks the model's 'iff' (C17_colour), not the property"),
                                   no_input=not styled)
@@ -269,8 +271,8 @@ def run(ck):
                 if styled != want:
                     ck.report("colour:history:%s" % name, "the colour decision of a report depends on earlier reports in the process (step %d of the sequence: %s)" % (step, "styled" if styled else "plain"),
                               dict(sequence=name, step=step, styled=styled, expected_styled=want, requests=[l[:60] for l in lines]), no_input=not styled)
-        ck.corr_record("T5 colour matrix (child processes with stderr on a pty / a pipe x NO_COLOR x {no guard, guard alive, outer guard alive + inner dropped, guard dropped}): styled iff terminal, NO_COLOR unset and no live guard",
-                       len(cdist), len(cdist), 0, cdist, samples=[dict(tty=True, NO_COLOR=False, guard=2)], exhaustive=True, rule="the full 2 x 2 x 4 matrix plus NO_COLOR set to the empty string and to 0, plus every subset of {stdin, stdout, stderr} on a terminal x {no guard, guard alive}; all distinct")
+        ck.corr_record("T5 colour matrix (child processes with stderr on a pty / a pipe x NO_COLOR x {no guard, guard alive, outer guard alive + inner dropped, guard dropped, overlapping guards dropped out of LIFO order: first of two dropped / both dropped first-first / middle of three dropped / first dropped + a third created and dropped}): styled iff terminal, NO_COLOR unset and no live guard",
+                       len(cdist), len(cdist), 0, cdist, samples=[dict(tty=True, NO_COLOR=False, guard=2)], exhaustive=True, rule="the full 2 x 2 x 8 matrix plus NO_COLOR set to the empty string and to 0, plus every subset of {stdin, stdout, stderr} on a terminal x {no guard, guard alive}; all distinct")
     finally:
         shutil.rmtree(scratch, ignore_errors=True)
     schedreplay.run(ck)
